@@ -92,6 +92,10 @@ class Flow:
     def normal_exits(self) -> List[Exit]:
         return [e for e in self.exits if e.kind in ("return", "fall")]
 
+    def iteration_ends(self) -> List[State]:
+        """For a loop body analysed on its own: states at the end of an iteration (fall-through or continue)."""
+        return [e.state for e in self.exits if e.kind in ("fall", "continue")]
+
     def must_at_normal_exits(self, fact: str) -> List[Exit]:
         """Normal exits that can be reached without `fact` having occurred."""
         return [e for e in self.normal_exits() if e.state.get(fact, (0, 0))[0] < 1]
@@ -268,12 +272,16 @@ class Flow:
         if isinstance(s, ast.Try) or s.__class__.__name__ == "TryStar":
             return self._try(s, st)
         if isinstance(s, ast.Break):
-            if not self._loops:
-                raise AnalysisError("break outside loop")
+            if not self._loops:  # analysing a loop body on its own: leaving the loop early
+                self.exits.append(Exit("break", s, st))
+                return None
             L = self._loops[-1]
             L["breaks"] = join(L["breaks"], st) if L["breaks"] is not None else dict(st)
             return None
         if isinstance(s, ast.Continue):
+            if not self._loops:  # analysing a loop body on its own: end of this iteration
+                self.exits.append(Exit("continue", s, st))
+                return None
             L = self._loops[-1]
             L["continues"] = join(L["continues"], st) if L["continues"] is not None else dict(st)
             return None
